@@ -61,43 +61,116 @@ def is_std(t):
     return re.match(r"(const )?std::(vector|array|map)<", t or "") is not None
 
 
+# ------------------------------------------------------------------------------------------------------------------
+# All rules below work on R.canonize(f): parameters are $i, for-loop variables #k, range-for variables @k, lambda parameters
+# &k, written locals %k, and every local that only names a value is replaced by that value.  Templates name the written
+# locals {A}, {B}, ...: a template matches a key when the placeholders can be bound to %k names, consistently over all
+# templates of one rule -- so renaming a local, or giving an intermediate value a name, changes nothing.
+def tmpl(t):
+    out, i = "", 0
+    for m in re.finditer(r"\{([A-Za-z])\}", t):
+        out += re.escape(t[i:m.start()])
+        out += "(?P<%s_%d>%s\\d+)" % (m.group(1), m.start(), "%" if m.group(1).isupper() else "&")
+        i = m.end()
+    return re.compile(out + re.escape(t[i:]) + r"\Z")
+
+
+def bind(keys, templates, env=None):
+    """every template matches some key, with one consistent binding of the placeholders; returns the binding or None"""
+    env = dict(env or {})
+
+    def rec(i, env):
+        if i == len(templates):
+            return env
+        rx = tmpl(templates[i])
+        for k in keys:
+            m = rx.match(k)
+            if not m:
+                continue
+            e2, ok = dict(env), True
+            for g, v in m.groupdict().items():
+                nm = g.split("_")[0]
+                if e2.get(nm, v) != v or (nm not in e2 and v in e2.values()):
+                    ok = False
+                    break
+                e2[nm] = v
+            if ok:
+                r = rec(i + 1, e2)
+                if r is not None:
+                    return r
+        return None
+    return rec(0, env)
+
+
+def fill_in(t, env):
+    return re.sub(r"\{([A-Za-z])\}", lambda m: env.get(m.group(1), m.group(0)), t)
+
+
+def effects(body):
+    """keys of all state-changing expressions (assignments, compound assignments, ++/--, operator= / += calls), in source order"""
+    out = []
+    for x, p in R.find(body, lambda x: x.get("k") in ("Assign", "CompoundAssign") or (x.get("k") == "Unary" and x.get("op") in ("++", "--")) or
+                       (x.get("k") == "Call" and x.get("op") in ("=", "+=", "-=", "*=", "/=", "++", "--"))):
+        out.append((x.get("line") or 0, len(out), R.key(x), x, p))
+    out.sort(key=lambda t: (t[0], t[1]))
+    return [(k, x, p) for _, _, k, x, p in out]
+
+
 def decls_of(body):
-    return {dd["name"]: dd.get("init") for x, _ in R.find(body, lambda x: x.get("k") == "Decl") for dd in x["decls"] if dd.get("init") is not None}
+    return {dd["name"]: dd.get("init") for x, _ in R.find(body, lambda x: x.get("k") == "Decl") for dd in x["decls"] if dd.get("name")}
 
 
-def std_filler(f, rep, where):
-    """H6: the three std-container overloads of fill_histogram"""
-    pn = [p["name"] for p in f["params"]]
-    sv, hv, acc = pn
+def loops_of(body):
+    ls = [x for x, _ in R.find(body, lambda x: x.get("k") in ("For", "ForRange", "While", "Do"))]
+    return sorted(ls, key=lambda x: x.get("line") or 0)
+
+
+def for_shape(lp):
+    init = R.strip(lp.get("init"))
+    iv = init["decls"][0]["name"] if init is not None and init.get("k") == "Decl" and init.get("decls") else None
+    i0 = R.key(init["decls"][0].get("init")) if iv else None
+    return iv, i0, R.key(lp.get("cond")), R.key(lp.get("inc"))
+
+
+def counts_up(lp, bound):
+    """for (#k = 0; #k < bound; ++#k) in any spelling of the increment"""
+    iv, i0, cond, inc = for_shape(lp)
+    return iv is not None and i0 == "0" and cond == "(%s < %s)" % (iv, bound) and inc in ("(++%s)" % iv, "(%s++)" % iv, "(%s += 1)" % iv)
+
+
+def enclosing_if(path):
+    ifs = [a for a, fld, _ in path if a.get("k") == "If"]
+    return ifs[-1] if ifs else None
+
+
+def std_filler(g, f, rep, where, calls_of):
+    """H6: the three std-container overloads of fill_histogram (canonical form: $0 view, $1 container, $2 accumulate)"""
     cont = re.match(r"std::(\w+)<", f["params"][1]["type"]).group(1)
     key = "H6:fill_histogram(std::%s)%s" % (cont, re.sub(r"^std::\w+", "", f["params"][1]["type"]).replace(" &", ""))
-    prob = []
-    body = R.strip(f["body"])
+    prob, unknown = [], []
+    body = R.strip(g["body"])
     items = [R.strip(x) for x in body.get("c", [])]
-    decl = decls_of(f["body"])
-    # reset: exactly one conditional statement, condition == !accumulate, resets the whole container
     ifs = [x for x in items if x.get("k") == "If"]
-    nested_ifs = [x for x, _ in R.find(f["body"], lambda x: x.get("k") in ("If", "Cond", "Switch", "For", "While", "Do", "ForRange"))]
-    if len(ifs) != 1 or len(nested_ifs) != 1:
-        prob.append("expected exactly one conditional (the reset), found %d top-level / %d in all" % (len(ifs), len(nested_ifs)))
+    nested = [x for x, _ in R.find(g["body"], lambda x: x.get("k") in ("If", "Cond", "Switch", "For", "While", "Do", "ForRange"))]
+    if len(ifs) != 1 or len(nested) != 1:
+        unknown.append("expected exactly one conditional (the reset), found %d top-level / %d in all" % (len(ifs), len(nested)))
     else:
-        ok, at = same_function(ifs[0]["cond"], "not acc", lambda a: {acc: "acc"}.get(a, a))
+        ok, at = same_function(ifs[0]["cond"], "not acc", lambda a: {"$2": "acc"}.get(a, a))
         if not ok or ifs[0].get("else") is not None:
             prob.append("reset condition over %s is not `!accumulate`" % at)
-        resets = [R.key(c) for c, _ in R.find(ifs[0].get("then"), lambda y: y.get("k") == "Call") if not R.key(c).startswith(("begin(", "end("))]
-        want = ["fill(begin(%s),end(%s),0)" % (hv, hv)] if cont == "array" else ["%s.clear()" % hv]
-        if resets != want:
-            prob.append("reset statement %s, expected %s" % (resets, want))
-    # the loop: one unconditional for_each_pixel over the gray conversion of the source view
+        resets = [R.key(c) for c, _ in R.find(ifs[0].get("then"), lambda y: y.get("k") == "Call") if not R.key(c).startswith(("begin(", "end(", "$1.begin(", "$1.end("))]
+        want = (["fill(begin($1),end($1),0)"], ["fill($1.begin(),$1.end(),0)"], ["$1.fill(0)"]) if cont == "array" else (["$1.clear()"],)
+        if resets not in want:
+            prob.append("reset statement %s, expected %s" % (resets, want[0]))
     top_calls = [x for x in items if x.get("k") == "Call"]
     loops = [x for x in top_calls if x["callee"]["name"] == "boost::gil::for_each_pixel"]
     all_loops = [x for x, _ in R.calls_in(f["body"], lambda n: n.endswith("for_each_pixel"))]
-    lam = None
+    lam, chan = None, None
     if len(loops) != 1 or len(all_loops) != 1:
-        prob.append("expected one unconditional for_each_pixel, found %d" % len(all_loops))
+        unknown.append("expected one unconditional for_each_pixel, found %d" % len(all_loops))
     else:
         lk = R.key(loops[0])
-        if lk != "for_each_pixel(color_converted_view(%s),Lambda)" % sv:
+        if lk != "for_each_pixel(color_converted_view($0),Lambda)":
             prob.append("pixel loop is %s" % lk)
         ccv = [c for c, _ in R.calls_in(loops[0], lambda n: n.endswith("color_converted_view"))]
         m = re.match(r"boost::gil::color_converted_view<boost::gil::pixel<([^,]+), boost::gil::layout<boost::mp11::mp_list<boost::gil::gray_color_t>", ccv[0]["callee"]["full"]) if ccv else None
@@ -106,81 +179,74 @@ def std_filler(f, rep, where):
         chan = m.group(1) if m else None
         lam = [x for x, _ in R.find(loops[0], lambda x: x.get("k") == "Lambda")]
         lam = lam[0] if lam else None
-    # sizing (vector): resize(max+1) unconditionally, before the loop
-    lim = None
-    for c, _ in R.calls_in(f["body"], lambda n: n == "std::numeric_limits::max"):
-        lim = c["callee"]["cls"]
+    lims = {c["callee"]["cls"] for c, _ in R.calls_in(g["body"], lambda n: n == "std::numeric_limits::max")}
     if cont == "vector":
         rs = [x for x in top_calls if x["callee"]["name"] == "std::vector::resize"]
-        if len(rs) != 1 or R.key(rs[0]) != "%s.resize((max() + 1))" % hv:
-            prob.append("sizing statement %s, expected %s.resize(max()+1)" % ([R.key(x) for x in rs], hv))
-        elif items.index(rs[0]) > items.index(loops[0]) if loops else False:
+        if len(rs) != 1 or R.key(rs[0]) not in ("$1.resize((max() + 1))", "$1.resize((1 + max()))"):
+            prob.append("sizing statement %s, expected $1.resize(max()+1)" % [R.key(x) for x in rs])
+        elif loops and items.index(rs[0]) > items.index(loops[0]):
             prob.append("the vector is sized after the pixel loop")
-        if loops and lim != "std::numeric_limits<%s>" % chan:
-            prob.append("the vector is sized from %s but indexed by %s" % (lim, chan))
-    # the increment
+        if loops and lims != {"std::numeric_limits<%s>" % chan}:
+            prob.append("the vector is sized from %s but indexed by %s" % (sorted(lims), chan))
     if lam is not None:
-        incs = [x for x, _ in R.find(lam["body"], lambda x: (x.get("k") == "Unary" and x.get("op") in ("++", "--")) or x.get("k") in ("CompoundAssign", "Assign"))]
-        lp = lam["params"][0]["name"] if lam.get("params") else "p"
-        conv = r"%s\.operator [\w ]+\(\)" % re.escape(lp)
+        eff = effects(lam["body"])
+        conv = r"&0\.operator [\w ]+\(\)"
         if cont == "array":
-            pat = r"\(\+\+%s\[\(%s \* scale\)\]\)" % (re.escape(hv), conv)
-            sk = R.key(decl["scale"]) if "scale" in decl else None
-            mk = R.key(decl["pixel_max"]) if "pixel_max" in decl else None
-            if sk != "((%s.size() - 1) / pixel_max)" % hv or mk != "max()":
-                prob.append("scale = %s with pixel_max = %s, expected (size-1)/max" % (sk, mk))
-            if loops and lim != "std::numeric_limits<%s>" % chan:
-                prob.append("scale uses %s but the converted channel is %s" % (lim, chan))
+            pat = r"\(\+\+\$1\[\(%s \* \(\(\$1\.size\(\) - 1\) / max\(\)\)\)\]\)" % conv
+            if loops and lims != {"std::numeric_limits<%s>" % chan}:
+                prob.append("scale uses %s but the converted channel is %s" % (sorted(lims), chan))
         else:
-            pat = r"\(\+\+%s\[%s\]\)" % (re.escape(hv), conv)
-        ks = [R.key(x) for x in incs]
+            pat = r"\(\+\+\$1\[%s\]\)" % conv
+        ks = [k for k, _, _ in eff]
         if len(ks) != 1 or not re.fullmatch(pat, ks[0]):
-            prob.append("bin updates %s, expected a single ++%s[index of the gray value]" % (ks, hv))
+            prob.append("bin updates %s, expected a single ++bin[%s]" % (ks, "gray * (size-1)/max" if cont == "array" else "gray"))
         if [x for x, _ in R.find(lam["body"], lambda x: x.get("k") in ("If", "Cond", "Switch", "For", "While", "Do", "Return", "Continue"))]:
             prob.append("the increment is conditional")
     if prob:
-        rep.violation("H6-std-fill", key, where, {"problems": prob})
+        rep.violation("H6-std-fill", key, where, {"problems": prob + unknown})
+    elif unknown:
+        rep.incon("H6-std-fill", key, {"unrecognised": unknown})
     else:
         rep.ok("H6-std-fill", key, "reset iff !accumulate; sized max+1 / scaled (size-1)/max; one ++bin[gray] per pixel of the whole view")
 
 
-def std_cumulative(f, rep, where):
+def std_cumulative(g, f, rep, where):
     """H7: running sums in index / key order"""
-    hv = f["params"][0]["name"]
     cont = re.match(r"(?:const )?std::(\w+)<", f["params"][0]["type"]).group(1)
     key = "H7:cumulative_histogram(std::%s)%s" % (cont, re.sub(r"^(const )?std::\w+", "", f["params"][0]["type"]).replace(" &", ""))
-    prob = []
-    decl = {k: R.key(v) for k, v in decls_of(f["body"]).items()}
-    stm = [(x, p) for x, p in R.find(f["body"], lambda x: x.get("k") in ("Assign", "CompoundAssign") or (x.get("k") == "Unary" and x.get("op") in ("++", "--")))]
-    ret = [R.key(x.get("e")) for x, _ in R.find(f["body"], lambda x: x.get("k") == "Return")]
-    loops = [x for x, _ in R.find(f["body"], lambda x: x.get("k") in ("For", "ForRange", "While", "Do"))]
+    prob, unknown = [], []
+    loops = loops_of(g["body"])
+    ret = [R.key(x.get("e")) for x, _ in R.find(g["body"], lambda x: x.get("k") == "Return")]
+    decl = {k: (R.key(v) if v is not None else None) for k, v in decls_of(g["body"]).items()}
+    env = None
     if len(loops) != 1:
-        prob.append("%d loops" % len(loops))
+        unknown.append("%d loops" % len(loops))
     else:
         lp = loops[0]
         if cont == "map":
-            if lp.get("k") != "ForRange" or R.key(lp.get("range")) != hv:
-                prob.append("loop does not range over %s" % hv)
-            it = lp.get("var")
-            src, dst = "%s.second" % it, "cumulative_hist[%s.first]" % it
+            if lp.get("k") != "ForRange" or R.key(lp.get("range")) != "$0":
+                prob.append("the loop does not range over the histogram")
+            src, dst = "@0.second", "{R}[@0.first]"
         else:
-            iv, i0, cond, inc = loop_shape(lp) if lp.get("k") == "For" else (None,) * 4
-            size_ok = cond == "(%s < %s.size())" % (iv, hv) or (cont == "array" and re.fullmatch(r"\(%s < (\d+)\)" % iv, cond or "") and
-                                                               re.search(r"std::array<[^,]+, %s(UL)?>" % re.fullmatch(r"\(%s < (\d+)\)" % iv, cond).group(1), f["params"][0]["type"]))
-            if i0 != "0" or not size_ok or inc not in ("(%s++)" % iv, "(++%s)" % iv):
-                prob.append("index loop (%s, %s, %s, %s)" % (iv, i0, cond, inc))
-            src, dst = "%s[%s]" % (hv, iv), "cumulative_hist[%s]" % iv
-        body_st = [R.key(x) for x, p in stm if any(a is lp and fld == "body" for a, fld, _ in p)]
-        if body_st != ["(cumulative_counter += %s)" % src, "(%s = cumulative_counter)" % dst]:
-            prob.append("loop body %s, expected running sum then store" % body_st)
+            n = re.search(r"std::array<[^,]+, (\d+)(UL)?>", f["params"][0]["type"])
+            if lp.get("k") != "For" or not (counts_up(lp, "$0.size()") or (n and counts_up(lp, n.group(1)))):
+                prob.append("index loop %s" % (for_shape(lp) if lp.get("k") == "For" else lp.get("k"),))
+            src, dst = "$0[#0]", "{R}[#0]"
+        eff = [k for k, x, p in effects(lp["body"])]
+        env = bind(eff, ["({C} += %s)" % src, "(%s = {C})" % dst])
+        if env is None or len(eff) != 2 or eff.index(fill_in("({C} += %s)" % src, env)) != 0:
+            prob.append("loop body %s, expected running sum then store" % eff)
         if [x for x, _ in R.find(lp["body"], lambda x: x.get("k") in ("If", "Cond", "Switch", "Continue", "Break", "Return"))]:
             prob.append("conditional statement inside the running sum")
-    if decl.get("cumulative_counter") not in ("0", "0.0"):
-        prob.append("counter starts at %s" % decl.get("cumulative_counter"))
-    if ret != ["cumulative_hist"]:
-        prob.append("returns %s" % ret)
+    if env:
+        if decl.get(env["C"]) not in ("0", "0.0"):
+            prob.append("counter starts at %s" % decl.get(env["C"]))
+        if ret != [env["R"]]:
+            prob.append("returns %s, the sums are stored in %s" % (ret, env["R"]))
     if prob:
-        rep.violation("H7-std-cumulative", key, where, {"problems": prob})
+        rep.violation("H7-std-cumulative", key, where, {"problems": prob + unknown})
+    elif unknown:
+        rep.incon("H7-std-cumulative", key, {"unrecognised": unknown})
     else:
         rep.ok("H7-std-cumulative", key, "counter from 0; every index/key in ascending order; add then store")
 
@@ -195,14 +261,7 @@ def run(rep):
         raise C.AnalysisBroken("drivers/c19_driver.cpp has compile errors")
     fns = d["functions"]
     rep.units.append("drivers/c19_driver.cpp: %d instantiated histogram functions" % len(fns))
-    rep.trusted += ["clang front end (instantiated AST)", "semantics of std::unordered_map, std::sort, std::for_each", "harness/ast/rules.py"]
-    seen = set()
-
-    def once(tag):
-        if tag in seen:
-            return False
-        seen.add(tag)
-        return True
+    rep.trusted += ["clang front end (instantiated AST)", "semantics of std::unordered_map, std::sort, std::for_each", "harness/ast/rules.py (canonical form: R.canonize)"]
     rep.rule("H1 histogram::fill: full loop nest; skip iff applymask && !mask[y][x]; every channel / bin_width; key from the scaled pixel; one increment of bin[key] iff !setlimits || (lower <= key && key <= upper)")
     rep.rule("H1b tuple_compare(t1,t2) == AND over i of get<i>(t1) <= get<i>(t2)")
     rep.rule("H2 fill_histogram: clear iff !accumulate; dense pre-fill iff !sparsefill; hist.fill(view, bin_width, applymask, mask, lower, upper, setlimits)")
@@ -212,123 +271,123 @@ def run(rep):
     rep.rule("H5 normalize: every bin divided by the sum of all bins; sum(): sum of all bins")
     rep.rule("H6 std-container fill_histogram: container reset iff !accumulate; vector sized numeric_limits<gray channel>::max()+1 before the loop, array index scaled by (size-1)/max; exactly one unconditional ++bin[gray value] per pixel of the whole view")
     rep.rule("H7 std-container cumulative_histogram: counter from 0, one loop over every index (map: every key in order), add then store, result returned")
+    rep.rule("all rules compare canonical forms (R.canonize): parameters by position, locals by role, named intermediate values inlined")
     for f in fns:
         nm = f["name"]
         short = nm.split("::")[-1]
-        rn = R.param_renamer(f)
+        g = R.canonize(f)
         where = "%s:%s" % (("include/" + f["file"].split("/include/", 1)[1]) if "/include/" in f.get("file", "") else W, f["line"])
         # ---------------------------------------------------------------- H1
         if nm == "boost::gil::histogram::fill":
-            dims = "3d" if "int, int, int" in f.get("cls", "") else "1d"
-            if not once("fill" + dims + str(len(f["full"]) % 2)):
-                pass
             rep.count("obligations:H1")
             key = "H1:histogram::fill:%s" % re.sub(r"boost::gil::", "", f["full"].split("::fill")[-1])[:60]
-            prob = []
-            loops = [x for x, _ in R.find(f["body"], lambda x: x.get("k") == "For")]
-            pn = [p["name"] for p in f["params"]]
-            sv = pn[0]
-            if len(loops) != 2:
-                prob.append("expected a two-level loop nest, found %d loops" % len(loops))
+            prob, unknown = [], []
+            loops = loops_of(g["body"])
+            if len(loops) != 2 or any(l.get("k") != "For" for l in loops):
+                unknown.append("expected a two-level for nest, found %d loops" % len(loops))
             else:
-                oy, ox = loop_shape(loops[0]), loop_shape(loops[1])
-                if oy[1:] != ("0", "(%s < %s.height())" % (oy[0], sv), "(++%s)" % oy[0]):
-                    prob.append("row loop %s" % (oy,))
-                if ox[1:] != ("0", "(%s < %s.width())" % (ox[0], sv), "(++%s)" % ox[0]):
-                    prob.append("column loop %s" % (ox,))
-                yv, xv = oy[0], ox[0]
-                decl = {dd["name"]: R.key(dd["init"]) for x, _ in R.find(f["body"], lambda x: x.get("k") == "Decl") for dd in x["decls"] if dd.get("init") is not None}
-                if decl.get("src_it") != "%s.row_begin(%s)" % (sv, yv) or decl.get("scaled_px") != "src_it[%s]" % xv:
-                    prob.append("pixel taken from %s / %s" % (decl.get("src_it"), decl.get("scaled_px")))
-                ren = lambda a: {"applymask": "applymask", "%s[%s][%s]" % (pn[3], yv, xv): "m", "setlimits": "setlimits",
-                                 "tuple_compare(%s,key)" % pn[4]: "lo", "tuple_compare(key,%s)" % pn[5]: "hi"}.get(a, a)
-                conts = [(x, p) for x, p in R.find(loops[1]["body"], lambda x: x.get("k") == "Continue")]
-                if len(conts) != 1:
-                    prob.append("%d continue statements" % len(conts))
+                if not counts_up(loops[0], "$0.height()"):
+                    prob.append("row loop %s" % (for_shape(loops[0]),))
+                if not counts_up(loops[1], "$0.width()"):
+                    prob.append("column loop %s" % (for_shape(loops[1]),))
+                yv, xv = for_shape(loops[0])[0], for_shape(loops[1])[0]
+                eff = effects(loops[1]["body"])
+                incs = [(k, x, p) for k, x, p in eff if "operator[](" in k and (k.endswith("++)") or k.startswith("(++") or " += 1)" in k)]
+                env = None
+                for k, x, p in incs:
+                    m = re.fullmatch(r"\((?:\+\+)?(?:this\.)?operator\[\]\((?:this\.)?key_from_pixel\((%\d+)\)\)(?:\+\+| \+= 1)?\)", k)
+                    if m:
+                        env = {"P": m.group(1)}
+                if len(incs) != 1 or env is None:
+                    prob.append("bin updates %s, expected one increment of bin[key_from_pixel(scaled pixel)]" % [k for k, _, _ in incs])
                 else:
-                    ifn = [a for a, fld, _ in conts[0][1] if a.get("k") == "If"]
-                    ok, at = same_function(ifn[-1]["cond"], "applymask and not m", ren) if ifn else (False, [])
-                    if not ok:
-                        prob.append("skip condition over %s is not `applymask && !mask[y][x]`" % at)
-                scal = [R.key(a) for x, _ in R.find(f["body"], lambda x: x.get("k") == "Call" and x["callee"]["name"].endswith("static_for_each")) for a, _ in R.find(x, lambda y: y.get("k") == "Assign")]
-                if scal != ["(ch = (ch / %s))" % pn[1]]:
-                    prob.append("channel scaling %s" % scal)
-                if decl.get("key") not in ("this.key_from_pixel(scaled_px)", "key_from_pixel(scaled_px)"):
-                    prob.append("key built from %s" % decl.get("key"))
-                incs = [(x, p) for x, p in R.find(loops[1]["body"], lambda x: (x.get("k") == "Unary" and x.get("op") == "++" and "operator[](key)" in R.key(x)) or
-                                                  (x.get("k") == "CompoundAssign" and "operator[](key)" in R.key(x.get("l"))))]
-                if len(incs) != 1:
-                    prob.append("%d increments of the bin" % len(incs))
-                else:
-                    ifn = [a for a, fld, _ in incs[0][1] if a.get("k") == "If"]
-                    ok, at = same_function(ifn[-1]["cond"], "(not setlimits) or (lo and hi)", ren) if ifn else (False, ["<unconditional>"])
+                    decl = {k: (R.key(v) if v is not None else None) for k, v in decls_of(g["body"]).items()}
+                    if decl.get(env["P"]) != "$0.row_begin(%s)[%s]" % (yv, xv):
+                        prob.append("the counted pixel is %s, expected $0.row_begin(y)[x]" % decl.get(env["P"]))
+                    KEY = r"(?:this\.)?key_from_pixel\(%s\)" % re.escape(env["P"])
+                    ren = lambda a: "applymask" if a == "$2" else "m" if a == "$3[%s][%s]" % (yv, xv) else "setlimits" if a == "$6" else \
+                        "lo" if re.fullmatch(r"tuple_compare\(\$4,%s\)" % KEY, a) else "hi" if re.fullmatch(r"tuple_compare\(%s,\$5\)" % KEY, a) else a
+                    conts = [(x, p) for x, p in R.find(loops[1]["body"], lambda x: x.get("k") == "Continue")]
+                    if len(conts) != 1:
+                        unknown.append("%d continue statements" % len(conts))
+                    else:
+                        ifn = enclosing_if(conts[0][1])
+                        ok, at = same_function(ifn["cond"], "applymask and not m", ren) if ifn else (False, [])
+                        if not ok:
+                            prob.append("skip condition over %s is not `applymask && !mask[y][x]`" % at)
+                    scal = [k for k, x, p in eff if any(a.get("k") == "Lambda" for a, _, _ in p)]
+                    if scal != ["(&0 = (&0 / $1))"] and scal != ["(&0 /= $1)"]:
+                        prob.append("channel scaling %s" % scal)
+                    sfe = [R.key(c) for c, _ in R.calls_in(loops[1]["body"], lambda n: n.endswith("static_for_each"))]
+                    if sfe != ["static_for_each(%s,Lambda)" % env["P"]]:
+                        prob.append("scaling applied to %s" % sfe)
+                    ifn = enclosing_if([q for q in incs[0][2] if True])
+                    inner = [a for a, fld, _ in incs[0][2] if a.get("k") == "If"]
+                    ifn = inner[-1] if inner else None
+                    ok, at = same_function(ifn["cond"], "(not setlimits) or (lo and hi)", ren) if ifn is not None else (False, ["<unconditional>"])
                     if not ok:
                         prob.append("count condition over %s is not `!setlimits || (lower <= key && key <= upper)`" % at)
             if prob:
-                rep.violation("H1-fill", key, where, {"problems": prob})
+                rep.violation("H1-fill", key, where, {"problems": prob + unknown})
+            elif unknown:
+                rep.incon("H1-fill", key, {"unrecognised": unknown})
             else:
                 rep.ok("H1-fill", key, "loop nest, mask, scaling, key, limits, single increment")
         # ---------------------------------------------------------------- H1b
         if nm == "boost::gil::detail::tuple_compare" and len(f["params"]) == 3:
             rep.count("obligations:H1b")
-            keys = [R.key(x) for x, _ in R.find(f["body"], lambda x: x.get("k") in ("Assign",) or (x.get("k") == "Call" and x.get("op") == "="))]
-            t1, t2 = f["params"][0]["name"], f["params"][1]["name"]
-            n_le = sum(k.count("(get(%s) <= get(%s))" % (t1, t2)) for k in keys)
-            fold = "(comp = (comp & comp_list[i]))" in keys or "(comp = (comp && comp_list[i]))" in keys
-            decl = {dd["name"]: R.key(dd["init"]) for x, _ in R.find(f["body"], lambda x: x.get("k") == "Decl") for dd in x["decls"] if dd.get("init") is not None}
-            lp = [loop_shape(x) for x, _ in R.find(f["body"], lambda x: x.get("k") == "For")]
-            ok = n_le >= 1 and fold and str(decl.get("comp")).lower() in ("true", "1") and lp and lp[0][1:] == ("0", "(i < comp_list.size())", "(i++)")
+            eff = [k for k, _, _ in effects(g["body"])]
+            n_le = sum(k.count("(get($0) <= get($1))") for k in eff)
+            decl = {k: (R.key(v) if v is not None else None) for k, v in decls_of(g["body"]).items()}
+            loops = loops_of(g["body"])
+            ret = [R.key(x.get("e")) for x, _ in R.find(g["body"], lambda x: x.get("k") == "Return")]
+            env = bind(eff, ["({R} = ({R} & {L}[#0]))"]) or bind(eff, ["({R} = ({R} && {L}[#0]))"]) or bind(eff, ["({R} &= {L}[#0])"])
+            ok = n_le >= 1 and env is not None and str(decl.get(env["R"])).lower() in ("true", "1") and len(loops) == 1 and loops[0].get("k") == "For" and \
+                counts_up(loops[0], "%s.size()" % env["L"]) and ret == [env["R"]]
             k = "H1b:tuple_compare:%d components" % n_le
             if ok:
-                rep.ok("H1b-tuple-compare", k, keys[:2])
+                rep.ok("H1b-tuple-compare", k, eff[:2])
             else:
-                rep.violation("H1b-tuple-compare", "H1b:tuple_compare", where, {"statements": keys, "initial": decl.get("comp"), "loop": lp})
+                rep.violation("H1b-tuple-compare", "H1b:tuple_compare", where, {"statements": eff, "initial": decl, "returns": ret})
         # ---------------------------------------------------------------- H2
         if nm == "boost::gil::fill_histogram" and len(f["params"]) == 10:
             rep.count("obligations:H2")
-            body = R.strip(f["body"])
+            body = R.strip(g["body"])
             items = [R.strip(x) for x in body.get("c", [])]
             seq = []
             for x in items:
                 if x.get("k") == "If":
-                    calls = [rn(R.key(c)) for c, _ in R.find(x.get("then"), lambda y: y.get("k") == "Call")]
-                    seq.append(("if", rn(R.key(x["cond"])), calls[-1] if calls else None, x.get("else") is not None))
+                    calls = [R.key(c) for c, _ in R.find(x.get("then"), lambda y: y.get("k") == "Call")]
+                    seq.append(("if", R.key(x["cond"]), calls[-1] if calls else None, x.get("else") is not None))
                 elif x.get("k") == "Call":
-                    seq.append(("call", rn(R.key(x))))
-            want = [("if", "(!$3)", "$1.clear()", False), ("if", "(!$4)", "f($1,$7,$8,$2)", False), ("call", "$1.fill($0,$2,$5,$6,$7,$8,$9)")]
+                    seq.append(("call", R.key(x)))
+            want = [("if", "(!$3)", "$1.clear()", False), ("if", "(!$4)", "filler{}($1,$7,$8,$2)", False), ("call", "$1.fill($0,$2,$5,$6,$7,$8,$9)")]
+            got = [(t[0], t[1], re.sub(r"^(%\d+|filler\{\})\(", "filler{}(", t[2] or ""), t[3]) if t[0] == "if" else t for t in seq]
             k = "H2:fill_histogram" + ("<3d>" if "int, int, int" in f["full"] else "<1d>")
-            if seq == want:
+            if got == want:
                 rep.ok("H2-protocol", k, seq)
             else:
                 rep.violation("H2-protocol", "H2:fill_histogram", where, {"statements": seq, "documented": want})
         # ---------------------------------------------------------------- H2b
         if nm == "boost::gil::detail::filler::operator()" and f["params"]:
-            # fill_histogram runs the dense pre-fill on the accumulate path too (H2: guarded by !sparsefill only), so the
-            # pre-fill may create bins but must not overwrite one: its only effect on a bin is value-preserving
-            hp = f["params"][0]["name"]
             writes = []
-            for x, p in R.find(f["body"], lambda x: x.get("k") in ("Assign", "CompoundAssign") or (x.get("k") == "Unary" and x.get("op") in ("++", "--")) or
-                               (x.get("k") == "Call" and x.get("op") in ("=", "+=", "-=", "*=", "/="))):
-                tgt = x.get("l") or x.get("e") or (x.get("args") or [None])[0]
-                tk = R.key(tgt)
-                if not re.match(r"%s(\(|\[|\.)" % re.escape(hp), tk):
+            for k, x, p in effects(g["body"]):
+                if not re.match(r"\(?(\+\+|--)?\$0(\(|\[|\.)", k):
                     continue
                 op = x.get("op") or "="
-                rhs = R.key(x.get("r") or (x.get("args") or [None, None])[1]) if x.get("k") != "Unary" else None
+                rhs = R.key(x.get("r") or (x.get("args") or [None, None])[1]) if x.get("k") != "Unary" and (x.get("r") is not None or len(x.get("args") or []) > 1) else None
                 keeps = (op in ("+=", "-=") and rhs in ("0", "0.0")) or (op in ("*=", "/=") and rhs in ("1", "1.0"))
-                writes.append((R.key(x), keeps))
-            erasers = [R.key(c) for c, _ in R.calls_in(f["body"], lambda n: n.split("::")[-1] in ("clear", "erase", "swap", "assign"))]
-            dims = "1" if writes or "<1>" in f.get("cls", "") + f.get("full", "") else "N"
+                writes.append((k, keeps))
+            erasers = [R.key(c) for c, _ in R.calls_in(g["body"], lambda n: n.split("::")[-1] in ("clear", "erase", "swap", "assign"))]
             rep.count("obligations:H2b")
             k = "H2b:detail::filler<%s>::operator()" % ("1" if re.search(r"filler<1", f.get("cls", "") + f["full"]) else "N")
             badw = [w for w, keeps in writes if not keeps] + erasers
-            # the call sites: harmless where the accumulate flag is known to be false
             sites, exposed = 0, 0
-            for g in fns:
-                if g["name"] != "boost::gil::fill_histogram" or len(g["params"]) != 10:
+            for h in fns:
+                if h["name"] != "boost::gil::fill_histogram" or len(h["params"]) != 10:
                     continue
-                acc = g["params"][3]["name"]
-                for c, pth in R.find(g["body"], lambda x: x.get("k") == "Call" and x["callee"].get("id") == f.get("id")):
+                acc = h["params"][3]["name"]
+                for c, pth in R.find(h["body"], lambda x: x.get("k") == "Call" and x["callee"].get("id") == f.get("id")):
                     sites += 1
                     if not any(op == "==" and l == acc and r == "0" for op, l, r in R.guards(pth)):
                         exposed += 1
@@ -339,56 +398,68 @@ def run(rep):
         # ---------------------------------------------------------------- H6 / H7
         if nm == "boost::gil::fill_histogram" and len(f["params"]) == 3 and is_std(f["params"][1]["type"]):
             rep.count("obligations:H6")
-            std_filler(f, rep, where)
+            std_filler(g, f, rep, where, None)
         if nm == "boost::gil::cumulative_histogram" and is_std(f["params"][0]["type"]):
             rep.count("obligations:H7")
-            std_cumulative(f, rep, where)
+            std_cumulative(g, f, rep, where)
         # ---------------------------------------------------------------- H3
         if nm == "boost::gil::cumulative_histogram" and not is_std(f["params"][0]["type"]):
             rep.count("obligations:H3")
-            keys = [R.key(x) for x, _ in R.find(f["body"], lambda x: x.get("k") in ("Assign", "CompoundAssign") or (x.get("k") == "Call" and x.get("op") == "="))]
-            sorts = [R.key(c) for c, _ in R.calls_in(f["body"], lambda n: n == "std::sort")]
-            lp = [loop_shape(x) for x, _ in R.find(f["body"], lambda x: x.get("k") == "For")]
-            one_d = ("(sorted_keys[(counter++)] = make_pair(v.first,v.second))" in keys and sorts == ["sort(sorted_keys.begin(),sorted_keys.end())"] and
-                     "(cumulative_counter += sorted_keys[i].second)" in keys and "(cumulative_hist[sorted_keys[i].first] = cumulative_counter)" in keys and
-                     lp and lp[0][1:] == ("0", "(i < sorted_keys.size())", "(++i)") and
-                     keys.index("(cumulative_counter += sorted_keys[i].second)") < keys.index("(cumulative_hist[sorted_keys[i].first] = cumulative_counter)"))
-            comps = [R.key(c) for c, _ in R.calls_in(f["body"], lambda n: n.endswith("tuple_compare"))]
-            n_d = ("(cumulative_counter += hist.at(v2.first))" in keys and "(cumulative_hist[v1.first] = cumulative_counter)" in keys and
-                   len(comps) == 1 and comps[0].startswith("tuple_compare(v2.first,v1.first,"))
+            eff = effects(g["body"])
+            keys = [k for k, _, _ in eff]
+            sorts = [R.key(c) for c, _ in R.calls_in(g["body"], lambda n: n == "std::sort")]
+            loops = [l for l in loops_of(g["body"]) if l.get("k") == "For"]
+            env1 = bind(keys, ["({S}[({N}++)] = make_pair({v}.first,{v}.second))", "({C} += {S}[#0].second)", "({H}[{S}[#0].first] = {C})"])
+            one_d = env1 is not None and sorts == [fill_in("sort({S}.begin(),{S}.end())", env1)] and len(loops) == 1 and counts_up(loops[0], "%s.size()" % env1["S"]) and \
+                keys.index(fill_in("({C} += {S}[#0].second)", env1)) < keys.index(fill_in("({H}[{S}[#0].first] = {C})", env1))
+            envn = bind(keys, ["({D} += $0.at({q}.first))", "({H}[{p}.first] = {D})"], {"H": env1["H"]} if env1 else None)
+            comps = [R.key(c) for c, _ in R.calls_in(g["body"], lambda n: n.endswith("tuple_compare"))]
+            comps = sorted(set(comps))
+            cmp_pat = fill_in("tuple_compare({q}.first,{p}.first,", envn) if envn else "?"
+            n_d = envn is not None and len(comps) == 1 and comps[0].startswith(cmp_pat)
             guard_ok = False
-            for x, p in R.find(f["body"], lambda x: x.get("k") == "CompoundAssign" and R.key(x) == "(cumulative_counter += hist.at(v2.first))"):
-                gs = R.guards(p)
-                guard_ok = any(l == "comp" and op == "!=" and r == "0" for op, l, r in gs)
+            if envn:
+                for k, x, p in eff:
+                    if k == fill_in("({D} += $0.at({q}.first))", envn):
+                        ifn = [a for a, fld, _ in p if a.get("k") == "If"]
+                        guard_ok = bool(ifn) and R.key(ifn[-1]["cond"]).startswith(cmp_pat) and ifn[-1].get("else") is None
+            ret = [R.key(x.get("e")) for x, _ in R.find(g["body"], lambda x: x.get("k") == "Return")]
+            ret_ok = env1 is not None and ret == [env1["H"]]
             k = "H3:cumulative_histogram" + ("<3d>" if "int, int, int" in f["full"] else "<1d>")
-            if one_d and n_d and guard_ok:
+            if one_d and n_d and guard_ok and ret_ok:
                 rep.ok("H3-cumulative", k, "running sum over sorted keys / dominated-keys sum")
             else:
-                rep.violation("H3-cumulative", "H3:cumulative_histogram", where, {"one_dimensional_branch": bool(one_d), "n_dimensional_branch": bool(n_d and guard_ok), "statements": keys})
+                rep.violation("H3-cumulative", "H3:cumulative_histogram", where, {"one_dimensional_branch": bool(one_d), "n_dimensional_branch": bool(n_d and guard_ok), "returns_the_sums": bool(ret_ok), "statements": keys})
         # ---------------------------------------------------------------- H4
         if nm == "boost::gil::histogram::sub_histogram" and not f["params"]:
             rep.count("obligations:H4")
-            keys = [R.key(x) for x, _ in R.find(f["body"], lambda x: x.get("k") in ("CompoundAssign",) or (x.get("k") == "Call" and x.get("op") == "+="))]
-            decl = {dd["name"]: R.key(dd["init"]) for x, _ in R.find(f["body"], lambda x: x.get("k") == "Decl") for dd in x["decls"] if dd.get("init") is not None}
-            fe = [R.key(c)[:40] for c, _ in R.calls_in(f["body"], lambda n: n == "std::for_each")]
-            ok = keys == ["(sub_h[sub_key] += this.operator[](v.first))"] and str(decl.get("sub_key", "")).startswith("tuple_to_tuple(v.first,") and fe == ["for_each(this.begin(),this.end(),Lambda)"[:40]]
+            keys = [k for k, _, _ in effects(g["body"])]
+            fe = [R.key(c)[:40] for c, _ in R.calls_in(g["body"], lambda n: n == "std::for_each")]
+            ret = [R.key(x.get("e")) for x, _ in R.find(g["body"], lambda x: x.get("k") == "Return")]
+            env = bind(keys, ["({S}[tuple_to_tuple({v}.first,index_sequence{})] += this.operator[]({v}.first))"])
+            ok = env is not None and len(keys) == 1 and fe == ["for_each(this.begin(),this.end(),Lambda)"[:40]] and ret == [env["S"]]
             if ok:
                 rep.ok("H4-marginal", "H4:sub_histogram<Dims...>()", keys)
             else:
-                rep.violation("H4-marginal", "H4:sub_histogram<Dims...>()", where, {"statements": keys, "projected_key": decl.get("sub_key"), "loops": fe})
+                rep.violation("H4-marginal", "H4:sub_histogram<Dims...>()", where, {"statements": keys, "loops": fe, "returns": ret})
         # ---------------------------------------------------------------- H5
         if nm in ("boost::gil::histogram::normalize", "boost::gil::histogram::sum"):
             rep.count("obligations:H5")
-            keys = [R.key(x) for x, _ in R.find(f["body"], lambda x: x.get("k") in ("Assign", "CompoundAssign") or (x.get("k") == "Call" and x.get("op") in ("=", "+=")))]
-            fe = [R.key(c) for c, _ in R.calls_in(f["body"], lambda n: n == "std::for_each")]
-            decl = {dd["name"]: R.key(dd["init"]) for x, _ in R.find(f["body"], lambda x: x.get("k") == "Decl") for dd in x["decls"] if dd.get("init") is not None}
-            want = ["(sum += v.second)"] + (["(this.operator[](v.first) = (v.second / sum))"] if short == "normalize" else [])
-            ok = keys == want and all(k == "for_each(this.begin(),this.end(),Lambda)" for k in fe) and len(fe) == len(want) and decl.get("sum") in ("0", "0.0")
+            keys = [k for k, _, _ in effects(g["body"])]
+            fe = [R.key(c) for c, _ in R.calls_in(g["body"], lambda n: n == "std::for_each")]
+            decl = {k: (R.key(v) if v is not None else None) for k, v in decls_of(g["body"]).items()}
+            want = ["({S} += {v}.second)"] + (["(this.operator[]({w}.first) = ({w}.second / {S}))"] if short == "normalize" else [])
+            env = bind(keys, want)
+            ok = env is not None and keys == [fill_in(w, env) for w in want] and all(k == "for_each(this.begin(),this.end(),Lambda)" for k in fe) and len(fe) == len(want) and \
+                decl.get(env["S"]) in ("0", "0.0")
+            if ok and short == "sum":
+                ret = [R.key(x.get("e")) for x, _ in R.find(g["body"], lambda x: x.get("k") == "Return")]
+                ok = ret == [env["S"]]
             k = "H5:histogram::%s%s" % (short, "<3d>" if "int, int, int" in f.get("cls", "") else "<1d>")
             if ok:
                 rep.ok("H5-normalize", k, keys)
             else:
-                rep.violation("H5-normalize", "H5:histogram::%s" % short, where, {"statements": keys, "loops": fe, "initial_sum": decl.get("sum")})
+                rep.violation("H5-normalize", "H5:histogram::%s" % short, where, {"statements": keys, "loops": fe, "initial_sum": decl})
     rep.floor("obligations:H1", 2)
     rep.floor("obligations:H1b", 1)
     rep.floor("obligations:H2", 2)
